@@ -62,6 +62,15 @@ class ndarray(metaclass=_NdMeta):
         r = self.a[k]
         return self._w(r)
 
+    def __setitem__(self, k, v):
+        if type(v).__name__ == 'Tensor' and hasattr(v, 'a'):
+            if v.a.size != 1:
+                raise ValueError('setting an array element with a sequence.')
+            v = v.a.reshape(-1)[0]          # numpy stores float(tensor)
+        elif isinstance(v, ndarray):
+            v = v.a
+        self.a[k] = v
+
     def _bin(self, o, f):
         ov = o.a if isinstance(o, ndarray) else o
         if isinstance(ov, _np.generic):
@@ -452,6 +461,49 @@ def _hstack(arrs, **k):
     return r if r is not None else _np.hstack(arrs, **k)
 
 
+def _havoc_mode():
+    from . import symtorch as st
+    return st._FRESH is st.havoc_fresh
+
+
+def _ones(shape, *a, **k):
+    if _havoc_mode() and not a and not k:
+        from . import symtorch as st
+        r = _np.ones(shape).astype(object)
+        return ndarray(r, st.float64)
+    return _np.ones(shape, *a, **k)
+
+
+def _zeros(shape, *a, **k):
+    if _havoc_mode() and not a and not k:
+        from . import symtorch as st
+        r = _np.zeros(shape).astype(object)
+        return ndarray(r, st.float64)
+    return _np.zeros(shape, *a, **k)
+
+
+def _elementwise(name, f):
+    def g(x, *a, **k):
+        if isinstance(x, _sc.Havoc):
+            return _sc.HAVOC
+        if _is_sym(x):
+            if any(isinstance(v, _sc.Havoc) for v in x.a.flat):
+                r = _np.empty(x.a.shape, dtype=object)
+                r[...] = _sc.HAVOC
+                return ndarray(r, x.tdtype) if r.ndim else _sc.HAVOC
+            if all(isinstance(v, (int, float)) for v in x.a.flat) and not a and not k:
+                return ndarray(f(x.a.astype(float)).astype(object), x.tdtype)
+            unsupported('numpy.%s on symbolic data' % name)
+        if _symbolic_arg(x):
+            unsupported('numpy.%s on symbolic data' % name)
+        return f(x, *a, **k)
+    return g
+
+
+facade.ones = _ones
+facade.zeros = _zeros
+facade.exp = _elementwise('exp', _np.exp)
+facade.log = _elementwise('log', _np.log)
 facade.unravel_index = _unravel_index
 facade.vstack = _vstack
 facade.hstack = _hstack
